@@ -186,6 +186,18 @@ package validate
 //@     invariant 0 <= i && i <= len(a.elements) && 0 <= j && j <= len(b.elements)
 //@     invariant forall p int, q int :: (0 <= p && p < len(a.elements) && 0 <= q && q < len(b.elements) && (p < i || q < j)) ==> a.elements[p] != b.elements[q]
 
+// Two types are disjoint - `==` between them is typed False and the branch it guards is never
+// type-checked - only if no value inhabits both. That is so for two entity types without a common
+// member and for nothing else the checker knows: every set type contains the empty set, record types
+// overlap through optional attributes, and the remaining kinds are either equal or rejected earlier.
+//@ func areTypesDisjoint
+//@   props C15
+//@   pure
+//@   requires ((a is typeEntity) ==> sortedET(a.(typeEntity).lub.elements)) && ((b is typeEntity) ==> sortedET(b.(typeEntity).lub.elements))
+//@   results r
+//@   ensures entities_only: r ==> ((a is typeEntity) && (b is typeEntity))
+//@   ensures no_common_member: r ==> !(exists p int, q int :: 0 <= p && p < len(a.(typeEntity).lub.elements) && 0 <= q && q < len(b.(typeEntity).lub.elements) && a.(typeEntity).lub.elements[p] == b.(typeEntity).lub.elements[q])
+
 // `a && b` checks b under the capabilities of a merged into the incoming ones: merge is the union.
 //@ func (capabilitySet) merge
 //@   props C15
